@@ -1,5 +1,6 @@
 ENGINES = [
- {"name": "zfacts", "path": "zfacts/", "serves_properties": ["C09"], "kind_free_text": "rustc_private driver: dumps HIR items and MIR of every workspace body as JSON facts (never runs the code)"},
+ {"name": "sqlfx+TX (E1)", "path": "lib/sqlfx.py, rules/c02.py", "serves_properties": ["C02"], "kind_free_text": "transaction-scope must-dataflow, commit-unit call-graph fixpoint, assume-Err reachability over MIR; SQL literals lexed for read/write classification"},
+ {"name": "zfacts", "path": "zfacts/", "serves_properties": ["C02", "C09"], "kind_free_text": "rustc_private driver: dumps HIR items and MIR of every workspace body as JSON facts (never runs the code)"},
  {"name": "absint (E2)", "path": "lib/absint.py", "serves_properties": ["C09"], "kind_free_text": "forward abstract interpreter over MIR: interval sets + polynomial normal forms + per-variant fact stores"},
 ]
 NOT_APPLICABLE = {
@@ -9,6 +10,10 @@ NOT_APPLICABLE = {
  "C17": "bounds on RNG-drawn values, greedy optimality and lattice monotonicity are value-level claims needing relational arithmetic reasoning beyond interval analysis",
 }
 CLAIMS = {
+ "C02": {"engine": "sqlfx+TX (E1)", "level": "proof", "ref": "DESIGN.md §3 E1, §4 C02",
+   "technique": "MIR dataflow: transaction-scope must-analysis, commit-unit fixpoint over the resolved call graph (closure + CHA edges), assume-Err reachability for error discipline",
+   "text": "Proves the structural atomicity discipline for every public write operation of zcash_client_sqlite (about 85 entry points) and the generic low-level wallet code that runs inside its transactions: all SQL writes of an operation lie in one transaction scope or are a single autocommitted statement (TX-1); commit is unreachable once a writing or closure-running call failed, is never executed twice, and is never skipped on an Ok return after writes (TX-2); no writing call's error can be swallowed (TX-3, about 370 call sites); the three named snapshot reads run entirely inside one transaction (TX-4); store operations read their guards in the writing scope (TX-5). Given SQLite's transaction semantics this yields all-or-nothing for errors, crashes at the commit boundary and concurrent snapshot readers. Not decided: that a retried operation reproduces the same state.",
+   "note": "Trusted: SQLite/rusqlite transaction semantics (rollback on drop), rustc MIR and trait resolution, the SQL literal lexer (unknown SQL passed to execute counts as a write), external crates execute no SQL except shardtree via the crate's ShardStore impls. FsBlockDb (block cache) and the schema-migration runner are outside the property's scope and analysed for information only."},
  "C09": {"engine": "absint (E2)", "level": "proof", "ref": "DESIGN.md §3 E2, §4 C09",
    "technique": "abstract interpretation of MIR (interval sets, polynomial normal forms, variant-partitioned facts) under inductive type invariants",
    "text": "Decides the property for the whole anchor module: every construction of Zatoshis/ZatBalance anywhere in the workspace is inside value.rs and proven in range in every calling context; every constructor/parser/operator returns exactly the polynomial its interface means, succeeds only inside and fails only outside the accepted range (per failure site), with the error kind on the right side; no reachable panic, wrap or truncating cast; byte encodings pair up. Inductive over the type invariant, so it holds for all inputs, not samples.",
